@@ -5,7 +5,12 @@
  * dequeue from its front (pause / symmetric transfer) - cv_env_coroutine_runs(). */
 #define QI (*QINST)                                   /* thread's coro_queue::instance (NULL = normal mode) */
 #define Q_PRE (cv_exc_pending == 0 && *TLS_GUARD == 1 && DQ_INV && (QI == 0 || QI == QIMPL))
-#define MODEL_ASSIGNS dq_head, dq_tail, dq_trk, dq_npop, dq_pop_trk, dq_npush, gh_n_resume, gh_res_trk, dq_front_slot, dq_back_slot, gh_allocs
+#define MODEL_ASSIGNS_BASE dq_head, dq_tail, dq_trk, dq_npop, dq_pop_trk, dq_npush, gh_n_resume, gh_res_trk, dq_front_slot, dq_back_slot, gh_allocs
+#ifdef CV_COUNT_X
+#define MODEL_ASSIGNS MODEL_ASSIGNS_BASE, dq_cntX, gh_rescntX      /* direct pushes / resumptions of the arbitrary handle value gh_X */
+#else
+#define MODEL_ASSIGNS MODEL_ASSIGNS_BASE
+#endif
 #define NOOPH ((cv_i8 *)NOOP_FRAME)
 
 #ifdef CV_HAS_cq_is_active
@@ -45,7 +50,7 @@ __CPROVER_ensures(gh_n_resume == __CPROVER_old(gh_n_resume))
   __CPROVER_loop_invariant(gh_RK < __CPROVER_loop_entry(gh_n_resume) ==> gh_res_trk == __CPROVER_loop_entry(gh_res_trk))
 void qi_flush(QIMPL_T *this_)
 __CPROVER_requires(Q_PRE && this_ == QIMPL)
-__CPROVER_assigns(MODEL_ASSIGNS)
+__CPROVER_assigns(MODEL_ASSIGNS_BASE)      /* as an abstract callee the drain does not touch the caller's DIRECT push/resume counters of gh_X */
 __CPROVER_ensures(dq_head == dq_tail)                                                         /* full drain */
 __CPROVER_ensures(FLUSH_INV(__CPROVER_old(gh_n_resume), __CPROVER_old(dq_npop)))
 __CPROVER_ensures(QI == __CPROVER_old(QI))
